@@ -118,7 +118,12 @@ func H16c() {
 	text := pre + "module m {\n  namespace \"urn:m\";\n\tprefix m;\n  import x { prefix x; }\n  " + body + "\n  leaf fine { type string; }\n}\n"
 	xmod := `module x { namespace "urn:x"; prefix x; typedef known { type int8; } }`
 	note(text)
-	ss, perr := Parse(text, "f.yang")
+	// the file name holds formatting verbs: a position must come out verbatim
+	fname := "f.yang"
+	if symBool() {
+		fname = "d%s/f%d%v.yang"
+	}
+	ss, perr := Parse(text, fname)
 	check(perr == nil, "the text is well-formed")
 	want := h16Find(ss, f.kw, f.arg)
 	check(want != "", "harness: faulty statement located")
@@ -126,7 +131,7 @@ func H16c() {
 	ms := NewModules()
 	check(ms.Parse(xmod, "x.yang") == nil, "imported module loads")
 	var msgs []string
-	if err := ms.Parse(text, "f.yang"); err != nil {
+	if err := ms.Parse(text, fname); err != nil {
 		msgs = append(msgs, err.Error())
 	} else {
 		for _, e := range ms.Process() {
@@ -135,10 +140,12 @@ func H16c() {
 	}
 	check(len(msgs) > 0, "the fault is reported")
 	reach("reported")
+	n := len(fname) + 1
 	for _, m := range msgs {
-		// leading file:line:col of the message
-		if len(m) > 7 && m[:7] == "f.yang:" {
-			i, colons := 7, 0
+		// every report of these fault kinds leads with file:line:col
+		check(len(m) > n && m[:n] == fname+":", "an error of building or resolving a module leads with the position of a statement of that file")
+		if len(m) > n && m[:n] == fname+":" {
+			i, colons := n, 0
 			for i < len(m) && colons < 2 {
 				if m[i] == ':' {
 					colons++
